@@ -164,8 +164,8 @@ h_bitop_assign!(c04_t_or_bvd3_f16x2, 5, bvd3(anylen(192)), f16x2(anylen(32)), |=
 h_bitop_assign!(c04_q_and_bvd2_u128, 4, bvd2(anylen(128)), iu128(), &=, and);
 h_bitop_assign!(c04_q_or_bvd2_u128, 4, bvd2(anylen(128)), iu128(), |=, or);
 h_bitop_assign!(c04_q_xor_bvd2_u64, 4, bvd2(anylen(128)), iu64(), ^=, xor);
-h_bitop_assign!(c04_t_or_bvd1_u8, 4, bvd1(anylen(64)), iu8(), |=, or);
-h_bitop_assign!(c04_t_xor_bvd1_u16, 4, bvd1(anylen(64)), iu16(), ^=, xor);
+h_bitop_assign!(c04_t_or_bvd1_u8, 9, bvd1(anylen(64)), iu8(), |=, or);
+h_bitop_assign!(c04_t_xor_bvd1_u16, 5, bvd1(anylen(64)), iu16(), ^=, xor);
 h_bitop_assign!(c04_t_or_bvd1_u32, 4, bvd1(anylen(64)), iu32(), |=, or);
 h_bitop_assign!(c04_t_and_bvd1_usize, 4, bvd1(anylen(64)), iusize(), &=, and);
 // by-reference form clones the lhs (one more allocation)
